@@ -20,18 +20,19 @@ from spil.sid.read.util import first
 from spil.sid.read.tools import unfold_search
 
 
-def is_plain_sid(sid: Sid) -> bool:
+def is_plain_sid(search_sid: str | Sid) -> bool:
     """
-    Returns True if the given Sid can be searched as it is, without unfolding:
-    it is typed, contains no search symbol, carries no unapplied query,
-    and its last value is not an extension alias (which stands for several extensions).
+    Returns True if the given search_sid can be searched as it is, without unfolding:
+    its string contains no search symbol and no query (a query could overwrite a search symbol when it is applied),
+    it is typed, and its last value is not an extension alias (which stands for several extensions).
     """
-    if not sid or sid.is_search():
+    string = str(search_sid)
+    if string.count("?") or any(symbol in string for symbol in conf.search_symbols):
         return False
-    string = str(sid)
-    if string.count("?"):
+    sid = Sid(search_sid)
+    if not sid:
         return False
-    return string.split(conf.sip)[-1] not in conf.extension_alias
+    return str(sid).split(conf.sip)[-1] not in conf.extension_alias
 
 
 class Finder:
@@ -93,9 +94,8 @@ class Finder:
             Generator over Sids or strings
         """
         # shortcut if Sid is not a search
-        sid = Sid(search_sid)
-        if is_plain_sid(sid):
-            generator = self.do_find([sid], as_sid=as_sid)
+        if is_plain_sid(search_sid):
+            generator = self.do_find([Sid(search_sid)], as_sid=as_sid)
         else:
             search_sids = unfold_search(search_sid)
             generator = self.do_find(search_sids, as_sid=as_sid)
